@@ -28,5 +28,29 @@ for pid in ids:
             extra = ("\nOther engineers have already produced the following faulty changes for this property. Yours must use a DIFFERENT mechanism and, where possible, "
                      "a different function or file (the property has several clauses and several places where it can break):\n" +
                      "\n".join("  - " + s for s in prev) + "\n")
+    if kind == "benign4":
+        FOCUS = {
+            "C01": "the client's ResponseHandler (validate_dele, validate_srep, validate_midpoint, validate_merkle, validate_sig, extract_time)",
+            "C02": "Responder::send_responses / make_response / add_*_request, OnlineKey::make_srep, MerkleTree::hash_leaf / hash_nodes / hash",
+            "C03": "the client's response handling (ResponseHandler::new, extract_time, validate_*), receive_response, verify_framing, make_request, create_nonce",
+            "C04": "MerkleTree::compute_root, get_paths, root_from_paths, reset, push_leaf",
+            "C05": "RtMessage::encode, encode_framed, encoded_size, from_bytes, single_tag_message, multi_tag_message",
+            "C06": "RtMessage::multi_tag_message, from_bytes, the Display impl of RtMessage",
+            "C07": "request::nonce_from_request and its helpers, Server::collect_requests, Responder::make_response / send_responses",
+            "C08": "Server::new (poll registrations), Server::process_events, Server::collect_requests, Server::handle_health_check",
+            "C09": "Server::process_events, Server::collect_requests, Responder::add_*_request, Responder::send_responses, Responder::reset",
+            "C10": "LongTermKey::new, make_cert, calc_srv_value, OnlineKey::make_dele, MsgSigner::from_seed / public_key_bytes",
+            "C11": "OnlineKey::make_srep / make_timestamp, Responder::send_responses (where the clock is read)",
+            "C12": "request::get_supported_version, nonce_from_rfc_request, is_rfc_request, Version::supported_versions_wire, OnlineKey::make_srep (VERS)",
+            "C13": "MsgSigner and MsgVerifier (new, from_seed, update, sign, verify)",
+            "C14": "EnvelopeEncryption::encrypt_seed / decrypt_seed and their private helpers",
+            "C15": "the server binary's main / polling_loop / bind_socket, Server::new, Server::collect_requests, config::is_valid_config",
+            "C16": "FileConfig::new and EnvironmentConfig::new, config::make_config, is_valid_config",
+            "C17": "the statistics calls in Server::collect_requests, Responder::send_responses, Server::send_client_stats, Reporter::receive_client_stats / processing_loop, ClientStats::merge",
+            "C18": "the server binary's main / polling_loop / bind_socket (worker start-up, what the worker closure captures, how the shared configuration is used)",
+            "C19": "the server binary's main (signal handler, worker / reporter joins, exit), polling_loop, Reporter::processing_loop",
+            "C20": "the logging in FileConfig::new / EnvironmentConfig::new, display_config in the server binary, Server::new, LongTermKey (Debug/Display)",
+        }
+        extra = "\nConcentrate your three changes on: " + FOCUS[pid] + ".\n"
     open(os.path.join(root, pid + ".prompt.txt"), "w").write(tmpl.format(WT=wt, ROOT=root, PROP=prop, ID=pid, EXTRA=extra))
 print("ready:", root, ids)
